@@ -869,6 +869,26 @@ func (env *Env) trCall(e *E) Val {
 		}
 		es, _ := env.elemInfo(x)
 		return Val{S: sel(env.heap(m.compSliceHeap(es)), slRef(x.S)), Sort: "(Array Int " + es + ")"}
+	case "capturedVar": // capturedVar(f, "x"): the current value of variable x captured by the closure value f (f must be a closure literal at this point)
+		if len(e.A) != 2 || e.A[1].K != "str" {
+			sfail("capturedVar(f, \"name\")")
+		}
+		fv := arg(0)
+		if fv.Fn == nil {
+			sfail("capturedVar: not a closure literal here")
+		}
+		for i, v := range fv.Fn.FreeVars {
+			if v.Name() == e.A[1].S && i < len(fv.Clo) {
+				c := fv.Clo[i]
+				pt, ok := c.G.Underlying().(*types.Pointer)
+				if !ok {
+					sfail("capturedVar: %s is not captured by reference", e.A[1].S)
+				}
+				es := m.sortOf(pt.Elem())
+				return Val{S: sel(env.heap(m.compCell(es)), c.S), Sort: es, G: pt.Elem()}
+			}
+		}
+		sfail("capturedVar: the closure does not capture %s", e.A[1].S)
 	case "deferCount":
 		if env.st == nil {
 			sfail("deferCount outside a function body")
